@@ -171,6 +171,37 @@ CHECKS.update({
         note="cpp (gcc 12) is an uninterpreted function of its argv"),
 })
 
+CHECKS.update({
+    "C03": dict(
+        category="model_checking", design_ref="DESIGN.md section 5 C03, 3.5 (CDecl), 3.7 (Splice)",
+        technique="TLC-enumerated declarations of CDecl.tla (declarator trees with Chain = C99 6.7.5.1-3) replayed into CParser in 10 declaration contexts; corpus declarations validated by the TLA+ matcher; splice events checked",
+        text="TLC enumerates every declarator syntax tree up to 3 (quick) / 4 (thorough) wrappers over pointer x qualifier sets, "
+             "array x 8 bound forms, function x 6 parameter forms and parentheses in 7 declaration contexts (type names in cast, "
+             "sizeof, _Alignof and compound literal), and at smaller depth all base specifiers x qualifiers, storage/function "
+             "specifiers, two-declarator declarations, initializer forms with designators and bit-fields; each finished state "
+             "carries the Decl/Typedef/Typename nodes the standard's inside-out rule assigns and is compared with the parser's "
+             "after projection. The corpus's declarations are validated by FrontTrace.tla (SpecRun/Dtor) and every recorded "
+             "_type_modify_decl splice against the tail-append rule.",
+        note="trusted: TLC, Chain in CDecl.tla as C99 6.7.5.1-3, harness/proj.py; TypeDecl.align/Typename.align outside the projection"),
+    "C05": dict(
+        category="model_checking", design_ref="DESIGN.md section 5 C05, 3.5 (CStmt), 3.7 (SwitchFix)",
+        technique="TLC-enumerated function bodies of CStmt.tla (6.8 with dangling else, pragma placement, declarative switch regrouping; SourceOrder/Regrouped checked by TLC) replayed into CParser; switchfix events checked",
+        text="TLC enumerates every function body of spec/CStmt.tla up to 3 statement nodes over all 30 productions, 5 nodes over a "
+             "switch-focused alphabet and 4 over a reduced alphabet (one more each in thorough), checks SourceOrder and Regrouped "
+             "on the specification, and exports the expected Compound; each body is parsed and compared. Recorded "
+             "fix_switch_cases events on the corpus are compared with the regrouping rule.",
+        note="trusted: TLC, CStmt.tla as a reading of C99 6.8 and of pycparser's documented pragma/switch conventions"),
+    "C08": dict(
+        category="translation_validation", design_ref="DESIGN.md section 5 C08, 3.5 (typed machine CTyped)",
+        technique="type-correct functions derived by TLC from CTyped.tla and the corpus: gcc -O0/-O1 -S of original vs regenerated text (both generator configurations), disagreements bisected to single functions",
+        text="spec/CTyped.tla derives function bodies that are type-correct by construction over a fixed prelude (every operator, "
+             "statement kind, struct/union/enum/bit-field access, function pointers, designated initializers, compound literals, "
+             "qualifiers, storage classes); all production pairs exhaustively and deep derivations by -simulate. Functions are "
+             "batched with file-scope declaration templates; original and regenerated text (reduce_parentheses False/True) are "
+             "compiled with gcc -O0 -S and -O1 -S and the assembly must be identical; a difference is bisected to the function.",
+        note="trusted: gcc 12 as the semantic oracle; a derived program gcc rejects is a machinery error"),
+})
+
 PENDING = {}
 
 
